@@ -108,6 +108,35 @@ Section Conj.
     - intros i _. f_equal. unfold kdelta. destruct (Nat.eq_dec i a), (Nat.eq_dec a i); try congruence; [apply conj_1 | apply conj_0].
   Qed.
 
+
+
+  (* the Gram matrix M M^H (what symeig_svd hands to eigh after d995974) is Hermitian, for every M *)
+  Lemma gram_hermitian n (M : nat -> nat -> K) a b :
+    S n (fun j => M a j *k conj (M b j)) = conj (S n (fun j => M b j *k conj (M a j))).
+  Proof. rewrite conj_S. apply S_ext; intros j _. rewrite conj_mul, conj_inv. ring. Qed.
+
+  (* ---------------------------------------------------------------- TT-SVD / TR-SVD cores from a U with unitary columns (real or complex data) *)
+  (* TT-SVD: core[a, i, b] = U[a * I + i, b] (reshape of U[:, :r]); the core is left-unitary: sum_{a,i} conj(core[a,i,b]) core[a,i,b'] = delta b b' *)
+  Definition kcore_of (I : nat) (U : nat -> nat -> K) : nat -> nat -> nat -> K := fun a i b => U (a * I + i) b.
+  Lemma tt_core_left_unitary rk I k r U : unitary_cols (rk * I) k U -> r <= k -> forall b b', b < r -> b' < r ->
+    S rk (fun a => S I (fun i => conj (kcore_of I U a i b) *k kcore_of I U a i b')) = kdelta b b'.
+  Proof.
+    intros H Hr b b' Hb Hb'. unfold kcore_of.
+    rewrite <- (bigsum_mul K k0 k1 kadd kmul ksub kopp Kth rk I (fun p => conj (U p b) *k U p b')). apply H; lia.
+  Qed.
+  (* TR-SVD, first core: factor[a, i, b] = U[i, a * r1 + b]; its mode unfolding (I x r0 r1) has unitary columns *)
+  Definition ktr_first_core (r1 : nat) (U : nat -> nat -> K) : nat -> nat -> nat -> K := fun a i b => U i (a * r1 + b).
+  Lemma tr_first_core_unitary I r0 r1 U : unitary_cols I (r0 * r1) U ->
+    forall a b a' b', a < r0 -> b < r1 -> a' < r0 -> b' < r1 ->
+    S I (fun i => conj (ktr_first_core r1 U a i b) *k ktr_first_core r1 U a' i b') = kdelta a a' *k kdelta b b'.
+  Proof.
+    intros H a b a' b' Ha Hb Ha' Hb'. unfold ktr_first_core. rewrite H by nia.
+    unfold kdelta. destruct (Nat.eq_dec (a * r1 + b) (a' * r1 + b')) as [E|E].
+    - assert (a = a') by nia. subst a'. assert (b = b') by lia. subst b'.
+      destruct (Nat.eq_dec a a); [|congruence]. destruct (Nat.eq_dec b b); [ring | congruence].
+    - destruct (Nat.eq_dec a a') as [->|]; [|ring]. destruct (Nat.eq_dec b b') as [->|]; [congruence | ring].
+  Qed.
+
   (* ---------------------------------------------------------------- Tucker tensors of every order *)
   Definition tens := list nat -> K.
   Fixpoint kfprod (fs : list (nat -> nat -> K)) (idx jdx : list nat) : K :=
@@ -238,6 +267,9 @@ Section Bundled.
   Notation tproj := (tproj K k0 k1 kadd kmul conj).
   Notation tinner := (tinner K k0 kadd kmul conj).
   Notation unitary_all := (unitary_all K k0 k1 kadd kmul conj).
+  Lemma gram_hermitian_b n (M : nat -> nat -> K) a b :
+    bigsum K k0 kadd n (fun j => kmul (M a j) (conj (M b j))) = conj (bigsum K k0 kadd n (fun j => kmul (M b j) (conj (M a j)))).
+  Proof. destruct Hc as (H1 & H2 & H3). now apply (gram_hermitian K k0 k1 kadd kmul ksub kopp Kth conj H1 H2 H3). Qed.
   Lemma unitary_identity_b d : unitary_cols K k0 k1 kadd kmul conj d d (kdelta K k0 k1).
   Proof. destruct Hc as (H1 & H2 & H3). now apply (unitary_cols_identity K k0 k1 kadd kmul ksub kopp Kth conj H1 H2 H3). Qed.
   Lemma adjoint_b shape ranks fs H X : tinner shape (trec ranks fs H) X = tinner ranks H (tproj shape fs X).
